@@ -61,12 +61,13 @@ DecP(b, p, t) ==
                      \* an unknown element type in the header of an EMPTY list is a grey area (nothing is read with it)
                      IF l.neg THEN FailW(p, "neg")
                      ELSE IF et > 12 /\ l.k > 0 THEN FailW(p, "tag")
-                     ELSE IF (et = 0 /\ l.k > 0) \/ l.k >= Huge THEN FailW(p, "other")
+                     ELSE IF et = 0 /\ l.k > 0 THEN FailW(p, "other")
+                     ELSE IF l.k >= Huge THEN Fail(p)        \* 2^24 or more elements cannot be present in an input this short
                      ELSE DecList(b, p + 5, et, l.k, <<>>)
     [] t = 10 -> DecComp(b, p, <<>>)
     [] t \in {11, 12} -> IF ~Avail(b, p, 4) THEN Fail(p)
                 ELSE LET l == Num(SubSeq(b, p, p + 3))  w == IF t = 11 THEN 4 ELSE 8 IN
-                     IF l.neg THEN FailW(p, "neg") ELSE IF l.k >= Huge THEN FailW(p, "other") ELSE IF ~Avail(b, p + 4, w * l.k) THEN Fail(p)
+                     IF l.neg THEN FailW(p, "neg") ELSE IF l.k >= Huge THEN Fail(p) ELSE IF ~Avail(b, p + 4, w * l.k) THEN Fail(p)
                      ELSE DecWords(b, p + 4, t, l.k, <<>>)
     [] OTHER -> FailW(p, "tag")
 DecList(b, p, et, k, acc) ==
